@@ -184,6 +184,22 @@ def print_assumptions(props_file, scratch):
     return rc, out, closed, axioms
 
 
+def coqchk(props_file, timeout=2400):
+    """Independent re-check of the compiled property file and everything it depends on (thorough tier)."""
+    mod = "J5V." + props_file[:-2].replace("/", ".")
+    cmd = ["coqchk", "-silent", "-o"] + coq_args() + [mod]
+    rc, out = run(cmd, cwd=COQ, timeout=timeout)
+    m = re.search(r"\* Axioms:\s*(.*?)\n\s*\n\* Constants/Inductives relying on type-in-type:\s*(.*?)\n\s*\n"
+                  r"\* Constants/Inductives relying on unsafe \(co\)fixpoints:\s*(.*?)\n\s*\n\* Inductives whose positivity is assumed:\s*(.*?)\n", out, re.S)
+    summary = {"rc": rc, "cmd": " ".join(cmd)}
+    if m:
+        summary.update({"axioms": " ".join(m.group(1).split()), "type_in_type": " ".join(m.group(2).split()),
+                        "unsafe_fixpoints": " ".join(m.group(3).split()), "assumed_positivity": " ".join(m.group(4).split())})
+    else:
+        summary["raw_tail"] = out[-1500:]
+    return rc, summary
+
+
 def count_obligations(props_file):
     src = strip_comments(open(os.path.join(COQ, props_file), encoding="utf-8").read())
     names = re.findall(r"^\s*(?:Theorem|Lemma|Example|Corollary)\s+([A-Za-z0-9_']+)", src, re.M)
@@ -289,6 +305,7 @@ def check_property(prop, tier, seed, replay=None):
     mism = []
     shard_errors = []
     pa_closed, pa_axioms, pa_out = 0, [], ""
+    chk = None
     obligations = count_obligations(cfg["props_file"])
     discharged = 0
     checker_cmd = "make -C coq -j%d %s (coq_makefile, full .vo build, Coq 8.16.1) && coqc %s" % (
@@ -314,6 +331,16 @@ def check_property(prop, tier, seed, replay=None):
                     broken.append(("proof", cfg["props_file"], pa_out[-2000:]))
                 else:
                     discharged = len(obligations)
+                    if tier == "thorough" and replay is None and not os.environ.get("VERIF_NO_COQCHK"):
+                        rc_chk, chk = coqchk(cfg["props_file"])
+                        bad = rc_chk != 0 or any(chk.get(k, "<none>") != "<none>" for k in
+                                                 ("type_in_type", "unsafe_fixpoints", "assumed_positivity"))
+                        allowed = cfg.get("allowed_axioms", [])
+                        ax = chk.get("axioms", "<none>")
+                        if ax != "<none>" and not all(any(a in part for a in allowed) for part in ax.split() if "." in part):
+                            bad = True
+                        if bad:
+                            broken.append(("proof", "coqchk of %s" % cfg["props_file"], json.dumps(chk)[:3000]))
             rcb, build_out = go_build(cfg["runner"])
         if rcb != 0:
             broken.append(("tie", "harness build against /repo (-tags verif)", build_out[-3000:]))
@@ -430,6 +457,8 @@ def check_property(prop, tier, seed, replay=None):
             "no_longer_checks": [{"kind": b[0], "what": b[1]} for b in broken],
             "notes": (res.get("notes") or []) if res else [],
         }
+        if chk is not None:
+            cov["coqchk"] = chk
         ev = {"property_id": prop, "tier": tier, "seed": seed, "level": cfg.get("level", "proof"),
               "coverage": cov, "assumptions": cfg["assumptions"], "wall_s": round(wall, 2),
               "violations": len(violations) + (1 if (broken and not violations) else 0)}
@@ -453,7 +482,9 @@ def do_setup():
             print("translator failed")
             return 1
         rc, out = step_make([], timeout=7000)
-        print(out[-6000:])
+        for f, l, t in re.findall(r'File "\./([^"]+)", line (\d+)[^\n]*\n((?:.*\n){0,8})', out)[:10]:
+            print("COQ ERROR %s:%s\n%s" % (f, l, t[:1500]))
+        print(out[-3000:])
         if rc != 0:
             print("coq build failed")
             return 1
